@@ -169,6 +169,10 @@ func convertTypesToInterfaceType(t types.Type) InterfaceType {
 	// Handle pointer
 	if ptr, ok := t.(*types.Pointer); ok {
 		inner := convertTypesToInterfaceType(ptr.Elem())
+		if inner.IsPointer {
+			// deeper pointers are different types: keep the extra levels in the name
+			inner.TypeName = "*" + inner.TypeName
+		}
 		inner.IsPointer = true
 		return inner
 	}
